@@ -349,3 +349,24 @@ Definition o_port (g : N) : obj := Obj HWLOC_OBJ_CORE g 0 true.
 Example transform_transitive_closure_nonvacuous :
   closure_i (seq 0 3) [Some (o_gpu 1); Some (o_port 2); Some (o_gpu 3)] 3 [0;5;1; 7;0;9; 2;4;0]%N = [0;5;6; 7;0;9; 6;4;0]%N.
 Proof. vm_compute. reflexivity. Qed.
+
+(* "groups are the connected components of the minimal-distance graph" is false
+   on the current code: on the valid matrix with minimal edges 0-5, 5-2, 2-3
+   object 2 joins group 1 in the round started from 0 (found from 5, below the
+   first-found index 5), is never used as a source, and 3 stays ungrouped *)
+Definition path_0523 : list N :=
+  [0;9;9;9;9;1; 9;0;9;9;9;9; 9;9;0;1;9;1; 9;9;1;0;9;9; 9;9;9;9;0;9; 1;9;1;9;9;0]%N.
+Theorem find_groups_closed_refuted :
+  exists nb v ng ids a b,
+    check_grouping_matrix nb v = true /\ find_groups_gen false nb v = Some (ng, ids) /\ (0 < ng)%nat /\
+    (a < nb)%nat /\ (b < nb)%nat /\ vget v (a * nb + b) = min_distance nb v /\
+    nth a ids O <> O /\ nth b ids O <> nth a ids O.
+Proof.
+  exists 6%nat, path_0523, 1%nat, [1;0;1;0;0;1]%nat, 2%nat, 3%nat.
+  vm_compute. repeat split; auto; discriminate.
+Qed.
+
+(* the patched scan (newfirstfound = smallest newly grouped index) puts 3 in the group *)
+Example find_groups_closed_postfix_witness :
+  find_groups_gen true 6 path_0523 = Some (1%nat, [1;0;1;1;0;1]%nat).
+Proof. vm_compute. reflexivity. Qed.
